@@ -27,6 +27,15 @@ FAULTS = ["width", "foreign", "arraywidth"]
 def plant(D, m, fault, repaired=False, first_top=None):
     D = copy.deepcopy(D)
     md = D["mods"][m]
+    if fault == "exportparam":
+        # a failure at EXPORT: the design elaborates, but one instance's parameter value (a tuple) has no representation in the package.  Two instances
+        # share the call object, as designers write it
+        pv = [["nstages", 3], ["t", 7 if repaired else [1, 2]], ["after", 5]]
+        for nm in ("bad", "bad2"):
+            i = U.inst(nm, "L1", [("a", Sig("p"))], k="ext")
+            i["pv"] = pv
+            md["insts"].append(i)
+        return D
     if fault == "cycle":
         # a circular hierarchy: module m instantiates the top it is (transitively) instantiated by - the scheduler's `Circular` decision
         if not repaired:
@@ -179,17 +188,35 @@ def replay(args):
     ch = ET.SHAPES[shape]
     if fault == "cycle":
         ch = {k: list(v) + ([first_top] if k == m else []) for k, v in ch.items()}
-    call("first", [first_top], mods, D, True, ch)
-    # an unrelated design, built from scratch in this process
+    # an unrelated design, built from scratch in this process (it holds a generic transistor, which a PDK compilation would replace)
     other = "chain" if shape != "chain" else "diamond"
     D2 = ET.shape_design(other)
     for k in list(D2["mods"]):
         D2["mods"][k]["name"] = "X" + k
+    D2["leaves"] = dict(D2["leaves"], Mos=[{"n": n, "w": 1} for n in ("d", "g", "s", "b")])
+    D2["mods"]["A"]["insts"].append(U.inst("mq", "Mos", [("d", Sig("p")), ("g", Sig("n")), ("s", Sig("n")), ("b", Sig("n"))], k="ext"))
     b2 = Builder(h, D2, "proc")
     for name in D2["mods"]:
         b2.module(name)
     xmods = {"X" + k: v for k, v in b2.mods.items()}
     xch = {"X" + k: ["X" + c for c in v] for k, v in ET.SHAPES[other].items()}
+    if src.get("via") == "compile":
+        # the failure is first met inside a PDK compilation of a LIST: [the unrelated design, the faulty one]
+        from hdl21.pdk import sample_pdk
+        ps = state["passes"]
+        sink = ET.Sink([p.__name__ for p in ps])
+        _verif.set_sink(sink)
+        emit({"ev": "call_begin", "tops": ["XA", first_top], "children": dict(ch, **xch), "np": len(ps), "kindof": [passlist.kind_of(p) for p in ps], "strict": False})
+        try:
+            sample_pdk.compile([xmods["XA"], mods[first_top]])
+            craised = False
+        except Exception:
+            craised = True
+        _verif.set_sink(None)
+        for e in sink.events:
+            emit(dict(e))
+        emit({"ev": "call_end", "raised": craised})
+    call("first", [first_top], mods, D, True, ch)
     call("unrelated", ["XA"], xmods, D2, False, xch)
     # other tops of the same DAG
     for t in sorted(ch):
@@ -202,7 +229,7 @@ def replay(args):
         h.elab.reset_elaborator()
         state["passes"] = list(default)
         call("retry_default_elaborator", [first_top], mods, D, True, ch)
-    if fault and fault != "cycle":
+    if fault and fault not in ("cycle", "exportparam"):
         # repair the planted fault on the real objects, then retry
         try:
             bad = mods[m].get("bad")
@@ -405,7 +432,9 @@ def run(tier, seed, replay_file=None):
             tops = {"chain": "A", "diamond": "A", "shared": "A", "twice": "D"}
             ft = tops[shape]
             for m in sorted(closure(shape, [ft])):
-                srcs = [{"type": "fault", "fault": f} for f in FAULTS + ["cycle"]]
+                srcs = [{"type": "fault", "fault": f} for f in FAULTS + ["cycle", "exportparam"]]
+                # ... and a real design fault met inside pdk.compile([an unrelated design, the faulty one]): the failed compile must leave the other alone
+                srcs += [{"type": "fault", "fault": f, "via": "compile"} for f in ("width", "arraywidth")]
                 inj = [{"type": "inject_before", "pos": i} for i in range(1, NP + 2)] + [{"type": "inject_in", "pos": i} for i in range(1, NP + 1)]
                 if tier == "quick":
                     inj = rnd.sample(inj, 6)
@@ -451,6 +480,8 @@ def run(tier, seed, replay_file=None):
         for c in cs:
             k = c["label"] + ("_raised" if c["raised"] else "_returned")
             o.cover[k] = o.cover.get(k, 0) + 1
+        if case.get("source", {}).get("via"):
+            o.cover["via_" + case["source"]["via"]] = o.cover.get("via_" + case["source"]["via"], 0) + 1
         st = case.get("source", {}).get("type", "generator")
         o.cover["source_" + st] = o.cover.get("source_" + st, 0) + 1
         feats = ["source_" + st] + (["fault_" + case["source"]["fault"]] if st == "fault" else [])
@@ -465,7 +496,7 @@ def run(tier, seed, replay_file=None):
             o.violations.append(Violation(clause="contract:" + v2[i][1], case=case, features=feats, detail=cs))
     o.distinct_nontrivial = nt
     o.required_cover = ["first_raised", "unrelated_returned", "sharing_without_returned", "retry_raised", "source_fault", "source_inject_before", "source_inject_in",
-                        "source_generator", "repair_retry_raised", "fault_cycle", "event_circular", "event_refail", "event_fail"]
+                        "source_generator", "repair_retry_raised", "fault_cycle", "fault_exportparam", "via_compile", "event_circular", "event_refail", "event_fail"]
     for i in rnd.sample(range(len(allcases)), 2):
         o.samples.append({"case": allcases[i], "calls": [{k: c[k] for k in ("label", "raised", "sig", "fresh_raised", "tainted")} for c in calls[i]], "verdict": v2[i]})
     return o
